@@ -31,6 +31,7 @@ RULE = (
     "sequences of length <=3 (quick) / <=4 (thorough) over an 8-key universe. Non-trivial "
     "= >=1 refusal, >=1 delete that compresses a branch, >=1 set that splits a kv node. "
     "Distinct = canonical JSON."
+    ' Added after the seeded rounds: old roots are re-opened from an equal but distinct bytes object and probed with absent keys; the same object is re-pointed at earlier roots; sparse-lookup mode; values equal to the hash of a node in the same db; the database may call back from a write and update a second BinaryTrie; a fixed 300-level deep comb of 40-byte keys.'
 )
 LEVEL_TEXT = (
     "Exploration by model-based + differential property testing: dict model with the "
